@@ -75,11 +75,16 @@ def fit(case):
         r = orig(self, *a, **k)
         flags.append(bool(getattr(r, 'converged', True)))
         return r
+    pk = ec.should_poke(df)
+    if pk:
+        ec.poke(tm)          # displays / diagnostics / plots between specification and fit()
     sm.GLM.fit = spy_fit
     try:
         tm.fit()
     finally:
         sm.GLM.fit = orig
+    if pk:
+        ec.poke(tm)
     tm._verif_converged_ = bool(flags and flags[-1])
     if case.get('refit'):
         # the targeting step must be repeatable: a second fit() on the same object solves the same equations
